@@ -682,4 +682,21 @@ Proof.
   unfold after, tail. rewrite Hst, Ht, (Hn i). cbn [andb].
   unfold set_nd, set_err, upd. cbn [nd lasterr]. rewrite Nat.eqb_refl. nsimpl. destruct (donech c); auto.
 Qed.
+(* the deadline is tested before the retry policy: after the timeout no step is handed back for a retry, and its
+   retry count does not grow any more *)
+Lemma timeout_no_retry s i early s' : timedout s = true -> step c s (WAfter i early) = Some s' ->
+  ph (nd s' i) <> PRetryWait /\ rc (nd s' i) = rc (nd s i).
+Proof.
+  intros Ht Hs. cbn [step] in Hs. destruct (ph (nd s i)) eqn:Hp; try discriminate.
+  destruct ((i <? nsteps c) && (negb early || (negb ok && nstatus_eqb (st (nd s i)) NCancel))); [|discriminate].
+  injection Hs as <-. unfold after, tail. rewrite Ht.
+  destruct ok.
+  - unfold set_nd, upd. cbn [nd]. rewrite Nat.eqb_refl.
+    destruct (repeat (steps c i) && negb (canceled s)); unfold count_done; destruct (st (nd s i)); cbn; (split; [discriminate|reflexivity]).
+  - destruct (if early then NRunning else st (nd s i)) eqn:E;
+      unfold set_nd, set_err, upd; cbn [nd]; rewrite Nat.eqb_refl;
+      unfold count_done; try (destruct (st (nd s i))); cbn;
+      repeat (match goal with |- context [if ?b then _ else _] => destruct b end);
+      (split; [discriminate|reflexivity]).
+Qed.
 End StopMore.
